@@ -13,6 +13,39 @@ inline const char* name(int f) {
   return n[f % NFAM];
 }
 
+// Structural triggers of value-dependent shortcuts ("is this limb zero?", "does it fit 32 bits?"), applied to one polynomial in four
+// after its family was generated (magnitudes only shrink, so every budget of the caller still holds): every low 32-bit half cleared
+// (coefficients become multiples of 2^32), zero on the leading / trailing part, a single coefficient kept at index 0, N/2, N-1 or a
+// generated index, the zero polynomial, all coefficients equal.
+inline void structure(int64_t* a, uint64_t n, int64_t M, vh::Rng& r) {
+  const uint64_t s = r.below(32);
+  if (s >= 8 || n == 0) return;
+  const uint64_t cut = n > 1 ? 1 + r.below(n - 1) : 0;
+  switch (s) {
+    case 0:
+      if (M >= ((int64_t)1 << 34)) {
+        bool any = false;
+        for (uint64_t i = 0; i < n; ++i) { a[i] = (int64_t)((uint64_t)a[i] & ~0xFFFFFFFFull); if (a[i] < -M) a[i] += (int64_t)1 << 32; any = any || a[i]; }
+        if (!any) a[r.below(n)] = (int64_t)1 << 32;
+      }
+      break;
+    case 1: for (uint64_t i = 0; i < cut; ++i) a[i] = 0; break;
+    case 2: for (uint64_t i = cut; i < n; ++i) a[i] = 0; break;
+    case 3: case 4: {
+      static const int where[4] = {0, 1, 2, 3};
+      const uint64_t w = r.below(4);
+      const uint64_t idx = where[w] == 0 ? 0 : where[w] == 1 ? n / 2 : where[w] == 2 ? n - 1 : r.below(n);
+      int64_t v = a[idx] ? a[idx] : (M > 0 ? ((r.next() & 1) ? M : -M) : 0);
+      for (uint64_t i = 0; i < n; ++i) a[i] = 0;
+      a[idx] = v;
+      break;
+    }
+    case 5: for (uint64_t i = 0; i < n; ++i) a[i] = 0; break;
+    case 6: { int64_t v = a[r.below(n)]; for (uint64_t i = 0; i < n; ++i) a[i] = v; break; }
+    default: break;
+  }
+}
+
 // fills a[0..n) with family f, magnitude bound M >= 0; j = resonance index (evaluation point 2j+1)
 inline void fill(int64_t* a, uint64_t n, int f, int64_t M, uint64_t j, vh::Rng& r) {
   for (uint64_t i = 0; i < n; ++i) a[i] = 0;
@@ -62,6 +95,7 @@ inline void fill(int64_t* a, uint64_t n, int f, int64_t M, uint64_t j, vh::Rng& 
       for (uint64_t i = 0; i < n; ++i) a[i] = r.sym(m);
     }
   }
+  structure(a, n, M, r);
 }
 
 }  // namespace pat
